@@ -139,6 +139,40 @@ func Run(cfg Config) int {
 			results = append(results, eng.ProveLemma(pi, lm))
 		}
 	}
+	// closure: every lemma used (transitively) by what was selected is proved in the same run
+	provedLemma := map[string]bool{}
+	for _, r := range results {
+		provedLemma[r.Name] = true
+	}
+	for changed := true; changed && cfg.Prop != ""; {
+		changed = false
+		var used []string
+		for n := range eng.LemmaUse {
+			used = append(used, n)
+		}
+		sort.Strings(used)
+		for _, n := range used {
+			i := strings.Index(n, ".")
+			pn, ln := n[:i], n[i+1:]
+			full := pn + ".lemma." + ln
+			if provedLemma[full] {
+				continue
+			}
+			provedLemma[full] = true
+			pi := eng.Pkgs[pn]
+			if pi == nil {
+				continue
+			}
+			for _, lm := range pi.Spec.LemmaList {
+				if lm.Name == ln {
+					if cfg.Only == "" || strings.Contains(full, cfg.Only) || true {
+						results = append(results, eng.ProveLemma(pi, lm))
+						changed = true
+					}
+				}
+			}
+		}
+	}
 	var obls []*vc.Obligation
 	var refused []string
 	var fnames, trusted []string
